@@ -41,7 +41,7 @@ LIFECYCLE = [W + n for n in ('spawn_process', 'spawn_processes', 'kill_process',
 
 
 def check(run, ctx):
-    run.each(ctx, [r1, r2, r3, r4, r5, r6])
+    run.each(ctx, [r1, r2, r3, r4, r5, r6, r7])
 
 
 def r6(run, ctx):
@@ -407,3 +407,9 @@ def r4(run, ctx):
     init = ctx.fn(P + '__init__')
     run.check('R4', any(norm_text(n.ast) == 'self.use_fds = use_fds' for n in ctx.live_nodes(init)
                         if n.ast is not None), 'Process stores use_fds unchanged', init, init.node)
+
+
+def r7(run, ctx):
+    run.rule('R7', 'reloadconfig closes no socket that was created through the API')
+    from rules.common import reload_spares_ignored
+    reload_spares_ignored(run, ctx, 'R7', 'sockets')
